@@ -74,7 +74,7 @@ c.finish(
     partial=[
         "a85_out_bound_as_designed_refuted: the design's bound |a85_dec e| <= |e| is false ('z' expands 1 byte to 4); proved instead: a85_out_bound (<= 4*|e|)",
         "maxxref_overflow_refuted: MaxXRefEntries overflows int64 for rawLen >= 2^58-256; guarded version proved (budget_props_maxxref)",
-        "classify_strict_refuted: an inner reader that returns an error wrapping io.EOF (errors.Is true, not identical) leaves the wrappers unclassified; classify holds with 'errors.Is(err, io.EOF)' as an allowed outcome, and classify_strict under the premise that inner readers signal EOF with io.EOF itself",
+        "classify_before_c59f855_refuted: about Classify.content_read_errors_is, the wrapper as it was before commit c59f855 (an inner error that wraps io.EOF left unclassified); for the current code classify holds in its strict form (io.EOF itself, malformed, or the source's own error)",
         "dct_charge_two_components_refuted: for nComp = 2 pixelPlaneBytes would not cover makeImg's chroma planes; unreachable (the SOF parser accepts 1, 3 or 4 components); dct_charge_covers_alloc is proved for 1, 3, 4",
         "ccitt_row_before_F41_F46_refuted: about CCITT.row2d_before_F41_F46, the decoder as it was before the repairs F41/F46 (a row could be one byte longer than ceil(Columns/8)); for the current code the documented bound is proved (ccitt_row_cap_as_documented)",
         "time/memory/goroutine/output-bound facts for Flate, CCITTFax, JBIG2, DCT: measured only",
